@@ -504,6 +504,83 @@ def run(ctx):
                         "%s %s.%s has parameters %s, base has %s" % (label, cls.name, nm, sc, sb),
                         detail={"method": nm})
 
+    representation_limits(ctx)
+
+
+def _stdlib_source(dotted):
+    """syntax tree of a standard-library module, located without importing it"""
+    import importlib.util
+    spec = importlib.util.find_spec(dotted)
+    if spec is None or not spec.origin or not spec.origin.endswith(".py"):
+        return None
+    with open(spec.origin, encoding="utf-8") as fh:
+        return ast.parse(fh.read())
+
+
+def representation_limits(ctx, rid_doctype="C04.14", rid_clark="C04.15"):
+    """Two places where one back-end's *representation* cannot hold what the tokenizer can produce, so the two trees differ:
+
+    C04.14  the DOM back-end hands the doctype name to `createDocumentType`, whose first parameter is a *qualified name*:
+            minidom's DocumentType.__init__ splits it at the colon and keeps the local part (read off the standard library's
+            source, not assumed).  `<!doctype a:b>` is named `b` in the DOM tree and `a:b` in the ElementTree.
+    C04.15  the ElementTree back-end uses a plain attribute name as the key of `Element.attrib`; ElementTree reads a key of the
+            form `{uri}local` as a namespaced name (Clark notation), and so does html5lib's own etree walker.  The tokenizer
+            accepts `{` in attribute names, so `<p {a}b=1>` holds the attribute (namespace a, b) in ElementTree and
+            (no namespace, `{a}b`) in the DOM."""
+    r = ctx.r
+    repo = ctx.repo
+    if rid_doctype:
+        r.rule(rid_doctype, "the DOM back-end keeps the doctype name the token carries", floor=1)
+        f = repo.module("treebuilders/dom.py").find_class("TreeBuilder").methods.get("insertDoctype")
+        if f is None:
+            raise AnalysisError("dom TreeBuilder.insertDoctype vanished")
+        calls = [c for c in ast.walk(f.node) if isinstance(c, ast.Call) and isinstance(c.func, ast.Attribute) and c.func.attr == "createDocumentType"]
+        # does minidom's DocumentType split the qualified name?
+        splits = None
+        tree = _stdlib_source("xml.dom.minidom")
+        if tree is not None:
+            for c in ast.walk(tree):
+                if isinstance(c, ast.ClassDef) and c.name == "DocumentType":
+                    init = [m for m in c.body if isinstance(m, ast.FunctionDef) and m.name == "__init__"]
+                    if init:
+                        splits = any(isinstance(a, ast.Assign) and isinstance(a.value, ast.Call) and norm(a.value.func) == "_nssplit"
+                                     for a in ast.walk(init[0]))
+        raw = len(calls) == 1 and calls[0].args and isinstance(calls[0].args[0], ast.Name)
+        restored = any(isinstance(a, ast.Assign) and any(isinstance(t, ast.Attribute) and t.attr in ("name", "nodeName") for t in a.targets)
+                       for a in ast.walk(f.node))
+        r.idiom(rid_doctype, bool(calls) and (restored or splits is False), "dom-doctype-name", f.where,
+                "dom insertDoctype: how the doctype name reaches the DOM was not recognised (minidom source %s)" % ("found" if tree else "not found"),
+                wrong=[(bool(raw) and splits is True and not restored,
+                        "the DOM back-end passes the doctype name to createDocumentType() as a qualified name; minidom's DocumentType "
+                        "splits it at the colon and keeps the local part (and None for an empty name): `<!doctype a:b>` is named `b` in "
+                        "the DOM tree, `a:b` in the ElementTree")],
+                detail={"minidom_splits_qualified_name": splits})
+    if rid_clark:
+        r.rule(rid_clark, "a plain attribute name is never stored under an ElementTree key that reads as a namespaced name", floor=1)
+        el = repo.module("treebuilders/etree.py").find_class("Element")
+        f = el.methods.get("_setAttributes") if el else None
+        if f is None:
+            raise AnalysisError("etree Element._setAttributes vanished")
+        stores = [a for a in ast.walk(f.node) if isinstance(a, ast.Assign) and isinstance(a.targets[0], ast.Subscript)] + \
+                 [c for c in ast.walk(f.node) if isinstance(c, ast.Call) and isinstance(c.func, ast.Attribute) and c.func.attr == "set"]
+        brace_test = any(isinstance(t, (ast.If, ast.IfExp)) and ("'{'" in norm(t.test)) for t in ast.walk(f.node))
+        verbatim = any(isinstance(a, ast.Assign) and isinstance(a.value, ast.Name) and isinstance(a.targets[0], ast.Name) and
+                       a.value.id in {x.id for x in ast.walk(f.node) if isinstance(x, ast.Name) and isinstance(x.ctx, ast.Store)}
+                       for a in ast.walk(f.node)) or \
+            any(isinstance(a, ast.Assign) and isinstance(a.targets[0], ast.Subscript) and isinstance(a.targets[0].slice, ast.Name) and
+                isinstance(p, ast.For) for p in ast.walk(f.node) if isinstance(p, ast.For) for a in p.body if isinstance(a, ast.Assign))
+        walker = repo.module("treewalkers/etree.py")
+        reads_clark = any(isinstance(c, ast.Call) and norm(c.func).endswith("tag_regexp.match") and c.args and not norm(c.args[0]).endswith(".tag")
+                          for c in ast.walk(walker.tree))
+        r.idiom(rid_clark, bool(stores) and brace_test, "etree-plain-attribute-key", f.where,
+                "etree _setAttributes: how plain attribute names become ElementTree keys was not recognised",
+                wrong=[(bool(stores) and verbatim and not brace_test,
+                        "the ElementTree back-end uses a plain attribute name verbatim as the key of Element.attrib; a name the tokenizer "
+                        "produced that begins with `{..}` reads as Clark notation%s: `<p {a}b=1>` has the attribute (namespace a, b) in "
+                        "ElementTree and (no namespace, `{a}b`) in the DOM, and `<p {a}=1>` gives the walker an empty attribute name"
+                        % (" (html5lib's etree walker splits every attribute key with tag_regexp)" if reads_clark else ""))],
+                detail={"walker_splits_attribute_keys": reads_clark})
+
 
 def thorough(ctx):
     from .. import selftest
